@@ -34,6 +34,9 @@ CLAIMED['C06'] = dict(ref='5.6', text='Clause K6 for 50 TLS classes: compose() o
 CLAIMED['C09'] = dict(ref='5.9', text='Clause K6 + K3 for TPKT, X.224 CR/CC, RDP negotiation request/response, MySQL packet header, OpenVPN control packets and TCP wrapper, PostgreSQL SSLRequest and its answer: compose() equals the specification encoding written from the protocol documents; the parsed class equals the class on the wire (class is part of object equality in K3).',
                 note='MySQL HandshakeV10/SSLRequest bodies and LDAP (asn1crypto) are not covered; the X.224 reference-field order is a known finding (test vectors pin it).',
                 technique='contract-based deductive verification: compose() == spec_PROTOCOL(fields) and round trip as postconditions over symbolic objects, z3')
+CLAIMED['C13'] = dict(ref='5.13', text='K9: compose() leaves the object equal to a snapshot on success and on failure (all classes of the E2 exploration, plus ClientHello with a symbolic-length cipher suite vector and symbolic SCSV flags, second compose equal); no parsed object references the caller\'s mutable buffer (identity walk over the object graph of every accepting path of every binary class parsed from a symbolic bytearray); ground obligations on every attrs declaration of the repository: a mutable default must be produced per instance.',
+                note='JSON/Markdown serialisation and the hassh/fingerprint observers are not covered (C14/C16 territory); object identity of mutable values is the identity of interpreter objects; the 20 shared defaults present in the pinned tree are a known finding listed field by field.',
+                technique='contract-based deductive verification: frame conditions (snapshot equality on every exit, freshness/non-aliasing of results) over symbolic execution of the real code, z3; declarations scanned natively')
 PENDING = {}
 NA = {
     'C18': 'relational property over RFC text grammars; every code path is ParserText scanning loops, attrs reflection in FieldValueMultiple, dateutil/urllib3/json: no contract within reach of the installed SMT back ends expresses or decides it (DESIGN.md 5.18)',
